@@ -260,12 +260,15 @@ ArmMisc(w) ==
              unp |-> m = 15 \/ Slice(w, 19, 16) = 0 \/ Slice(w, 15, 12) # 15 \/ Slice(w, 11, 8) # 0]
        [] op2 = 7 /\ op = 3 -> [k |-> "smc", enc |-> "SMC_A1", unp |-> Slice(w, 19, 8) # 0]
        \* ERET A1 belongs to the Virtualization Extensions, which the emulator documents as not implemented in ARM state
-       [] op2 = 6 /\ op = 3 -> Unspec("arm-eret-virt-ext")
+       [] op2 = 6 /\ op = 3 -> Unimpl("arm-eret-virt-ext")
+       \* MRS / MSR (banked register): Virtualization Extensions, documented as not implemented
+       [] op2 = 0 /\ Bit(w, 9) = 1 -> Unimpl("arm-banked-mrs-msr")
        [] op2 = 1 /\ op = 3 -> MISC1("CLZ_A1", "CLZ", Slice(w, 15, 12), m, Any15({Slice(w, 15, 12), m}) \/ Slice(w, 19, 16) # 15 \/ Slice(w, 11, 8) # 15)
        [] op2 = 5 -> [k |-> "qarith", enc |-> <<"QADD_A1", "QSUB_A1", "QDADD_A1", "QDSUB_A1">>[op + 1], double |-> op \div 2 = 1, sub |-> op % 2 = 1,
                       d |-> Slice(w, 15, 12), n |-> Slice(w, 19, 16), m |-> m, unp |-> Any15({Slice(w, 15, 12), Slice(w, 19, 16), m}) \/ Slice(w, 11, 8) # 0]
        [] op2 = 1 /\ op = 1 -> [k |-> "bx", enc |-> "BX_A1", m |-> m, unp |-> ~sbo]
        [] op2 = 3 /\ op = 1 -> [k |-> "blxr", enc |-> "BLX_r_A1", m |-> m, unp |-> m = 15 \/ ~sbo]
+       [] op2 = 2 /\ op = 1 -> [k |-> "bxj", enc |-> "BXJ_A1", m |-> m, unp |-> m = 15 \/ ~sbo]
        [] OTHER -> Unspec("arm-misc")
 
 \* A5.2.10 synchronization primitives (ARM): LDREX/STREX and the byte / halfword / doubleword forms (ARMv6 / v6K on).
@@ -334,7 +337,7 @@ CoprocSpace(w, sfx, thumb) ==
       C(enc, mem, unp) == [k |-> "coproc", enc |-> enc \o sfx, cp |-> cp, memop |-> mem, unp |-> unp]
   IN IF op1 \div 2 = 0 THEN Undef
      ELSE IF cp \div 2 = 5 THEN Unimpl("coproc-vfp-advsimd")
-     ELSE IF cp \in {14, 15} THEN Unspec("coproc-cp14-cp15")
+     ELSE IF cp \in {14, 15} THEN Unimpl("coproc-cp14-cp15")
      ELSE IF op1 = 4 THEN C("MCRR", FALSE, t = 15 \/ t2 = 15 \/ (thumb /\ (t = 13 \/ t2 = 13)))
      ELSE IF op1 = 5 THEN C("MRRC", FALSE, t = 15 \/ t2 = 15 \/ t = t2 \/ (thumb /\ (t = 13 \/ t2 = 13)))
      ELSE IF op1 \div 32 = 0 /\ op1 % 2 = 0 THEN C("STC", TRUE, n = 15 /\ (W = 1 \/ thumb))
@@ -777,6 +780,8 @@ T32BranchMisc(w, dx) ==
                    [] op = 59 /\ Slice(w, 7, 4) \in {0, 1} -> Unspec("t32-enterx-leavex")
                    [] op = 59 /\ Slice(w, 7, 4) > 2 -> Nopish("t32-barrier")
                    [] op = 59 /\ Slice(w, 7, 4) = 2 /\ dx.arch < 6 -> Unspec("t32-clrex-pre-v6")
+                   [] op = 60 -> [k |-> "bxj", enc |-> "BXJ_T1", m |-> Slice(w, 19, 16),
+                                  unp |-> BadReg(Slice(w, 19, 16)) \/ midITx \/ Slice(w, 11, 0) # 3840 \/ Bit(w, 13) # 0]
                    [] op = 61 ->
                         IF dx.hyp /\ Slice(w, 7, 0) # 0 THEN Undef          \* SUBS PC, LR is UNDEFINED in Hyp mode (decode-time check)
                         ELSE
